@@ -4,6 +4,7 @@
 package rpc
 
 import (
+	"errors"
 	"github.com/hslam/code"
 )
 
@@ -114,8 +115,12 @@ func (req *request) Marshal(buf []byte) ([]byte, error) {
 }
 
 //Unmarshal unmarshals the Request from buf and returns the number of bytes read (> 0).
-func (req *request) Unmarshal(data []byte) (uint64, error) {
-	var offset uint64
+func (req *request) Unmarshal(data []byte) (offset uint64, err error) {
+	defer func() {
+		if r := recover(); r != nil {
+			offset, err = 0, errors.New("code: malformed request")
+		}
+	}()
 	var n uint64
 	n = code.DecodeVarint(data[offset:], &req.Seq)
 	offset += n
@@ -229,8 +234,12 @@ func (res *response) Marshal(buf []byte) ([]byte, error) {
 }
 
 //Unmarshal unmarshals the Response from buf and returns the number of bytes read (> 0).
-func (res *response) Unmarshal(data []byte) (uint64, error) {
-	var offset uint64
+func (res *response) Unmarshal(data []byte) (offset uint64, err error) {
+	defer func() {
+		if r := recover(); r != nil {
+			offset, err = 0, errors.New("code: malformed response")
+		}
+	}()
 	var n uint64
 	n = code.DecodeVarint(data[offset:], &res.Seq)
 	offset += n
